@@ -118,6 +118,11 @@ func (ch *Channel) Invoke(ctx context.Context, methodName string, req, resp inte
 	case <-respCh:
 	}
 	if err != nil {
+		if cerr := ctx.Err(); cerr != nil {
+			// reading the body was aborted because the context ended (and the
+			// select above happened to see the reader finish first)
+			return statusFromContextError(cerr)
+		}
 		return err
 	}
 	return codec.Unmarshal(b, resp)
